@@ -1,4 +1,4 @@
-import PyYetiVerif.Lemmas.ExtremaHeap
+import PyYetiVerif.Lemmas.ExtremaHeapRefine
 /-!
 # C16 — forming an envelope does not modify its parts (object identity)
 
@@ -35,6 +35,32 @@ theorem form_extreme_does_not_modify_parts (nanX : X) (h h' : Heap α X L)
 
 end frame
 
+section refine
+variable {α X L : Type} [LT α] [DecidableLT α]
+
+/-- ★ the store model computes what the value model computes: for ANY history of calls into an
+accumulator that starts empty, whose arguments are objects that existed before (`InRange`) and whose
+abscissae are always given or never given (`b`), the calls can be read back from the ORIGINAL store
+as `(max, min)` triples `ms`, and what the accumulator holds in the end is `run2 ms` — the running
+extreme of `Props/C16.lean` (`ext_is_fold_max`, `envelope_of_parts`, … therefore speak about the
+implementation's objects, not only about values). -/
+theorem heap_run_is_run2 (nanX nox : X) (b : Bool) (h h' : Heap α X L)
+    (hist : List (MmRef × LabArg L × Option (LabArg L))) (cur' : Option CatRef)
+    (hr : ∀ e ∈ hist, InRange h.size e ∧ e.1.extx.isSome = b)
+    (hs : run true nanX h none hist = some (h', cur')) :
+    ∃ ms, hist.mapM (readCall h nox) = some ms ∧
+      cur'.bind (fun c => readCat h' c nox) = run2 ms := by
+  obtain ⟨ms, hms, ha⟩ := run_spec h.size nanX nox b h hist h h' none cur' none
+    (Keeps.refl _ h ⟨Nat.le_refl _, Nat.le_refl _, Nat.le_refl _⟩) (Or.inl ⟨rfl, rfl⟩) hr hs
+  refine ⟨ms, hms, ?_⟩
+  rcases ha with ⟨h0, h1⟩ | ⟨c, r, h0, h1, hh, -, -, -⟩
+  · rw [h0, run2, h1]
+    rfl
+  · rw [h0, run2, h1]
+    exact readCat_of_holds h' c r nox hh
+
+end refine
+
 /-- the copy is what the theorem rests on: with `curext.ext_x = mm.ext_x` on the first call (the
 aliasing variant, `copyX = false`) the second call writes the abscissa of ITS maximum into the first
 part's `ext_x` array (`(0, 0)` becomes `(7, 0)`), while the faithful model leaves it alone. -/
@@ -61,5 +87,12 @@ example :
       = run2 [(⟨some 1, 0, "A"⟩, ⟨some 0, 1, "A"⟩), (⟨some 5, 2, "l1"⟩, ⟨none, 3, "l2"⟩),
               (⟨some 5, 4, "C"⟩, ⟨some (-2), 5, "c"⟩)] := by
   decide
+
+/-- `heap_run_is_run2`: the hypothesis on a call is inhabited (a call of the history above: label
+lists handed in, abscissae given) -/
+example : InRange (3, 3, 2) ((⟨1, some 1⟩, .list 0, some (.list 1)) :
+    MmRef × LabArg String × Option (LabArg String)) :=
+  ⟨by decide, fun r h => by cases h; decide, fun r h => by cases h; decide,
+    fun r h => by cases h; decide⟩
 
 end PyYetiVerif.C16
